@@ -603,5 +603,6 @@ def signals_to_torch_feat_dir(args=None):
             ),
         )
         if options.manifest is not None:
-            print(utt_id, file=options.manifest)
+            # flush: the entry must survive whatever terminates us next
+            print(utt_id, file=options.manifest, flush=True)
     return 0
